@@ -670,3 +670,54 @@ def granular_remove_contract():
                     havoc={'to_remove': lambda v: Val('triples', z3.FreshConst(TripleSet, 'to_remove'))},
                     assumptions=['callee contracts of granular remove_markings: expand_markings / build_granular_marking / compress_markings (proved: the same triples), utils.validate, new_version; '
                                  'an entry of an expanded list is equal to another exactly when they are the same (kind, marking, selector) triple'])
+
+
+# ------------------------------------------------------------------ granular set_markings: "setting equals clearing then adding"
+CLEARED = z3.Function('clear_markings.result.view', TripleSet, E.SetS, z3.BoolSort(), z3.BoolSort(), TripleSet)     # view after clear_markings(obj, selectors, marking_ref, lang)
+ADDED = z3.Function('add_markings.result.view', TripleSet, E.SetS, E.SetS, TripleSet)                               # view after add_markings(obj, marking, selectors) -- characterised by its own contract
+
+
+def granular_set_contract():
+    from vf.pyvc.lib import real_sig, bind_actuals
+    MKSET = z3.Const('marking.view', E.SetS)
+
+    def view_of(v):
+        if v.sort == 'markedobj': return v.t if v.t is not None else OBJ_VIEW
+        raise Unsupported('view of ' + v.sort)
+
+    def bound_call(x, e, p, site, name):
+        sig = real_sig(x.src_root, GRAN, name)
+        nodes = list(e.args) + [k.value for k in e.keywords]
+        outs = list(x.ev_seq(nodes, p))
+        if len(outs) != 1 or isinstance(outs[0][1], Exc): raise Unsupported(site + ' arguments')
+        p1, vs = outs[0]
+        bound, errors = bind_actuals(sig, e, vs)
+        if errors: raise Unsupported(site + f' call does not bind to the real signature of {name}: {errors}')
+        return p1, bound
+
+    def same_param(x, v, name): return v is x.params.get(name)
+
+    def h_clear(x, e, p, site):
+        p1, b = bound_call(x, e, p, site, 'clear_markings')
+        ok = all(not isinstance(b.get(f), tuple) and same_param(x, b.get(f), f) for f in ('obj', 'selectors', 'marking_ref', 'lang'))
+        x.oblige('call(clear_markings): the object, the selectors and the two kind flags of this call are what is cleared', p1.pc, z3.BoolVal(bool(ok)), p1.exact, 'call-requires')
+        yield p1.fork(), Exc('MarkingNotFoundError', site)
+        yield p1.fork(), Exc('InvalidSelectorError', site)
+        yield p1, Val('markedobj', CLEARED(OBJ_VIEW, SELQ, x.params['marking_ref'].t, x.params['lang'].t), x={'cleared': True})
+
+    def h_add(x, e, p, site):
+        p1, b = bound_call(x, e, p, site, 'add_markings')
+        o = b.get('obj')
+        ok = isinstance(o, Val) and o.sort == 'markedobj' and (o.x or {}).get('cleared') and same_param(x, b.get('marking'), 'marking') and same_param(x, b.get('selectors'), 'selectors')
+        x.oblige('call(add_markings): the markings of this call are added, on the same selectors, to what clear_markings returned', p1.pc, z3.BoolVal(bool(ok)), p1.exact, 'call-requires')
+        if not (isinstance(o, Val) and o.sort == 'markedobj'): raise Unsupported(site + ' add_markings on ' + getattr(o, 'sort', '?'))
+        yield p1.fork(), Exc('InvalidSelectorError', site)
+        yield p1.fork(), Exc('InvalidValueError', site)
+        yield p1, Val('newobj', ADDED(view_of(o), MKSET, SELQ))
+    return Contract(f'{GRAN}::set_markings', props=['C07'],
+                    params={'obj': Val('markedobj', x={}), 'marking': Val('markingarg', MKSET), 'selectors': Val('selset', SELQ), 'marking_ref': 'bool', 'lang': 'bool'},
+                    ensures=[('setting equals clearing then adding: the result is add_markings(clear_markings(obj, selectors, marking_ref, lang), marking, selectors)',
+                              lambda a, r: r.t == ADDED(CLEARED(OBJ_VIEW, SELQ, a['marking_ref'].t, a['lang'].t), MKSET, SELQ) if r.sort == 'newobj' else z3.BoolVal(False))],
+                    raises={'MarkingNotFoundError': None, 'InvalidSelectorError': None, 'InvalidValueError': None},
+                    handlers={'clear_markings': h_clear, 'add_markings': h_add},
+                    assumptions=['callee contracts of granular set_markings: add_markings (proved above), clear_markings (not under contract: in-place updates of entries in nested loops; its result is an uninterpreted function of the view of the object, the selectors and the two flags)'])
